@@ -88,6 +88,19 @@ CLAIMED['C15'] = dict(
     design='§5 C15',
     technique="bounded symbolic execution of the binary's and library's MIR (mirsym) with uninterpreted environment; obligations decided by cvc5/z3; CLI replay")
 
+CLAIMED['C14'] = dict(
+    category='model_checking',
+    text="Decided on the real MIR with a symbolic Config object whose layout is read from the generated getters: Config::set_heuristics / "
+         "set_width_heuristics / WidthHeuristics::{scaled,set,null} for every max_width 20..1000 (thorough 10000), every heuristics mode, arbitrary user "
+         "overrides and was_set flags (clamp of user values, Max = max_width, documented defaults up to 100, never above max_width, monotone above 100; "
+         "f32 arithmetic bit-exact in the solver's FP theory); Config::default_for_possible_style_edition (style_edition > version > edition); the three "
+         "deprecated-alias setters; get_toml_path (dotted name wins in one directory, for all file/other/absent/error outcomes of both probes); and, in "
+         "bin/main.rs::format, that every input is formatted with the config resolved for it.",
+    note="Known findings (open, re-derived and replayed every run): Default heuristics exceed max_width below 60/70/35/50, Off yields usize::MAX. Trusted: MIR "
+         "printer, mirsym, solver FP theories, uninterpreted default_with_style_edition / fs::metadata / Path::join / canonicalize, ignored eprintln!. "
+         "Outside: directory walk and home fallbacks, TOML/getopts parsing, print-config round trip.",
+    design='§5 C14')
+
 NA = {
     'C01': "token-sequence equivalence over all programs requires symbolic execution of rustc_parse and ~30 kLoC of AST rewriters; no encodable kernel carries it",
     'C02': "fixed-point of the full formatting pipeline (parser + all rewriters on both sides); not encodable, and idempotence of kernels does not imply it",
